@@ -33,11 +33,15 @@ package dtls
 //@ end
 
 //@ func Conn.handleChangeCipherSpecRecord
-//@ watch incomingPacketState.markPacketAsValid
+//@ watch incomingPacketState.markPacketAsValid Conn.setRemoteEpoch
+// a ChangeCipherSpec is consumed (replay slot committed, read epoch advanced by exactly one) only when it
+// belongs to the current read epoch; a stale or future one changes nothing.
+//@ ensures commit-only-with-epoch-step: called("incomingPacketState.markPacketAsValid") ==> ncalls("Conn.setRemoteEpoch") == 1
+//@ ensures epoch-step-is-one: called("Conn.setRemoteEpoch") ==> argAs("Conn.setRemoteEpoch", 1, uint16(0)) == old(prepared.header.Epoch) + 1 && old(CS(c).RemoteEpoch()) == old(prepared.header.Epoch)
+//@ ensures refused-changes-nothing: !called("Conn.setRemoteEpoch") ==> !called("incomingPacketState.markPacketAsValid") && !result
+//@ ensures newest-flag: called("incomingPacketState.markPacketAsValid") ==> result == retBool("incomingPacketState.markPacketAsValid", 0)
 //@ requires args: prepared.header != nil && prepared.markPacketAsValid != nil && wfConn(c)
 //@ ensures commit-at-most-once: ncalls("incomingPacketState.markPacketAsValid") <= 1
-//@ ensures refused-not-committed: !result ==> true
-//@ ensures epoch-step: called("incomingPacketState.markPacketAsValid") ==> true
 //@ end
 
 // handleRecordContent: whatever the content type, the replay slot is committed at most once, and
@@ -45,6 +49,8 @@ package dtls
 //@ func Conn.handleRecordContent
 //@ watch incomingPacketState.markPacketAsValid send:Conn.decrypted
 //@ requires args: prepared.header != nil && prepared.markPacketAsValid != nil && ctx != nil && nonNilPayload(content) && wfConn(c)
+// (answering a path challenge emits a record: RRC is negotiated only on connections that can protect one; RRCENV is in verif_contracts_c09.go)
+//@ requires rrc-env: RRCENV(c)
 //@ ensures commit-at-most-once: ncalls("incomingPacketState.markPacketAsValid") <= 1
 //@ ensures deliver-at-most-once: ncalls("send:Conn.decrypted") <= 1
 //@ ensures deliver-implies-commit: called("send:Conn.decrypted") ==> called("incomingPacketState.markPacketAsValid")
@@ -56,6 +62,7 @@ package dtls
 //@ func returnRoutabilityConn.HandleRecord
 //@ watch incomingPacketState.markPacketAsValid send:Conn.decrypted
 //@ requires args: prepared.header != nil && prepared.markPacketAsValid != nil && message != nil && c.conn != nil && wfConn(c.conn)
+//@ requires rrc-env: RRCENV(c.conn)
 //@ ensures commit-at-most-once: ncalls("incomingPacketState.markPacketAsValid") <= 1
 //@ ensures never-delivers: !called("send:Conn.decrypted")
 //@ ensures epoch0-not-committed: old(prepared.header.Epoch) == 0 ==> !called("incomingPacketState.markPacketAsValid") && result2 != nil
@@ -73,6 +80,26 @@ package dtls
 //@ ensures cid-compared: result2 ==> called("bytes.Equal") && retBool("bytes.Equal", 0)
 //@ ensures cid-is-headers: called("bytes.Equal") ==> sameSlice(argBytes("bytes.Equal", 1), header.ConnectionID)
 //@ ensures decrypt-once: ncalls("CipherSuite.Decrypt") <= 1
+//@ end
+
+// RFC 9146 3/4: once a connection ID is negotiated for the inbound direction, records without it are discarded
+// (before any decryption), and the CID of a record is compared with the *local* one. (inline: decryptLegacyPacket
+// sees the bodies; stated here on the small functions because the atomics behind the local CID make the same
+// clauses slow on the caller.)
+//@ func Conn.validateLegacyCIDPresence
+//@ inline
+//@ requires args: wfConn(c) && header != nil
+//@ ensures cid-required-when-negotiated: len(CS(c).LocalConnectionIDForInboundRecords()) > 0 && header.ContentType != 25 ==> !result
+//@ ensures otherwise-accepted: len(CS(c).LocalConnectionIDForInboundRecords()) == 0 || header.ContentType == 25 ==> result
+//@ end
+
+//@ func Conn.validateLegacyCID
+//@ inline
+//@ watch bytes.Equal
+//@ requires args: wfConn(c) && header != nil
+//@ ensures compared: ncalls("bytes.Equal") == 1 && result == retBool("bytes.Equal", 0)
+//@ ensures cid-is-headers: sameSlice(argBytes("bytes.Equal", 1), header.ConnectionID)
+//@ ensures cid-compared-with-local: bytesEq(argBytes("bytes.Equal", 0), CS(c).LocalConnectionIDForInboundRecords())
 //@ end
 
 //@ func Conn.prepareLegacyPacket
